@@ -239,7 +239,9 @@ func (d *abciDriver) genTx(label string) plannedTx {
 			n.BaseNs = d.c.hdr.Time.UnixNano()
 			n.FirstID = cur
 			p, _ := n.Build()
-			if rapid.IntRange(0, 4).Draw(t, label+"_zeroStart") == 0 {
+			// (not when the current period is exponential with a short step: counted from year 1 the step loop
+			// would run for hours - a hang, not a panic, recorded as remark R-ZEROSTART)
+			if rapid.IntRange(0, 4).Draw(t, label+"_zeroStart") == 0 && (n.Periods[0].Kind != "exp" || n.Periods[0].StepNs >= 30*dayNs) {
 				// start_time left unset in the proposal: a valid message (validation does not look at it)
 				p.StartTime = time.Time{}
 				d.zeroStart++
